@@ -17,8 +17,8 @@ Lemma disabled_user_authenticates_with_cookie_refuted :
     authenticates o sid /\ authed (snd (step_gen XC false st o)) = Some w /\
     alookup w (users st) = Some usr /\ u_disabled usr = true.
 Proof.
-  exists [CreateUser 1 1 1; CreateSession 1 1 1000 false; SetDisabled 1 true], 1, (AuthCookie 1), 1,
-         (mkUser (C:=XC) (Some (1, 1)) true 1 1).
+  exists [CreateUser 1 1 1 4; CreateSession 1 1 1000 false; SetDisabled 1 true], 1, (AuthCookie 1), 1,
+         (mkUser (C:=XC) (Some (4, 1, 1)) true 1 2 1).
   cbv zeta. split; [left; reflexivity|]. vm_compute. repeat split; reflexivity.
 Qed.
 
@@ -27,15 +27,31 @@ Lemma disabled_user_authenticates_with_one_time_session_refuted :
     authed (snd (step_gen XC false (run_gen XC false (init XC 10) ops) (AuthOneTime sid))) = Some 1 /\
     authed (snd (step_gen XC false (run_gen XC false (init XC 10) ops) (AuthPassword 1 1 None))) = None.
 Proof.
-  exists [CreateUser 1 1 1; CreateSession 1 1 1000 true; SetDisabled 1 true], 1.
+  exists [CreateUser 1 1 1 4; CreateSession 1 1 1000 true; SetDisabled 1 true], 1.
   vm_compute. split; reflexivity.
 Qed.
 
 (* the repaired model refuses the same history *)
 Lemma disabled_user_refused_when_repaired :
   authed (snd (step_gen XC true (run_gen XC true (init XC 10)
-      [CreateUser 1 1 1; CreateSession 1 1 1000 false; SetDisabled 1 true]) (AuthCookie 1))) = None.
+      [CreateUser 1 1 1 4; CreateSession 1 1 1000 false; SetDisabled 1 true]) (AuthCookie 1))) = None.
 Proof. vm_compute. reflexivity. Qed.
+
+(* 3. Re-hashing at login with two bcrypt costs in use at once (the callback of rehashPassword re-checks only the
+      COST of the reloaded document, not that it still verifies the password presented): a login with the old
+      password 1 (configured cost 5) reads the user; a node still hashing with cost 4 changes the password to 5;
+      the login's Save hits the CAS mismatch, reloads, sees cost 4 <> 5 and writes the OLD password back.
+      Afterwards the superseded password authenticates and the current one is refused.  With one configured cost
+      this cannot happen (C12_Properties.C12_rehash_preserves_credentials). *)
+Lemma rehash_mixed_cost_reinstates_old_password_refuted :
+  exists ops,
+    let st := run_gen XC true (init XC 10) ops in
+    authed (snd (step_gen XC true st (AuthPassword 1 1 None))) = Some 1 /\
+    authed (snd (step_gen XC true st (AuthPassword 1 5 None))) = None.
+Proof.
+  exists [CreateUser 1 1 1 4; LoginRehash 7 1 1 None 5; SetPassword 1 5 2 4; RehashSave 7 3; RehashSave 7 4].
+  vm_compute. split; reflexivity.
+Qed.
 
 Open Scope nat_scope.
 (* A reads; B reads, checks, deletes (wins); A checks -- refreshing: the document is back -- A deletes: wins *)
